@@ -451,7 +451,7 @@ def check(ctx: Ctx) -> None:
             raise MachineryError(f"Session.tla: action {a} never taken")
     sim = ctx.tlc("MC_Session", "MC_Session_sim.cfg", workers=4, simulate=f"num={150 if ctx.tier == 'quick' else 1500}", depth=10, seed=ctx.seed + 5)
     n = 0
-    stride = 23 if ctx.tier == "quick" else 11
+    stride = 23 if ctx.tier == "quick" else 41
     for k, rec in enumerate(ex.records):
         if k % stride:
             continue
